@@ -572,6 +572,8 @@ class Interp:
 
     # ---------------------------------------------------------------- attributes
     def getattr(self, v, attr: str, node=None, frame: Frame = None):
+        if isinstance(v, (BoundBuiltin, FuncV)) and attr in ("__name__", "__qualname__"):
+            return getattr(v, "qual", None) or "function"
         if isinstance(v, Obj):
             if attr in v.attrs:
                 return v.attrs[attr]
